@@ -87,9 +87,21 @@ def run(names, tier, props):
         plist = props or [meta["property"]] + list(meta.get("also_check", []))
         rc, out = sh("git -C /repo apply %s" % os.path.join(d, "patch.diff"))
         if rc:
-            print(n, "PATCH DOES NOT APPLY", out[:200])
-            results[n] = dict(error="patch does not apply to current /repo HEAD")
-            continue
+            # the tree moved on (fix: commits): rebase the stored patch with a 3-way apply and keep the rebased form
+            rc, out = sh("git -C /repo apply --3way %s" % os.path.join(d, "patch.diff"))
+            if rc:
+                sh("git -C /repo reset -q --hard HEAD")
+                print(n, "PATCH DOES NOT APPLY", out[:200])
+                results[n] = dict(error="patch does not apply to current /repo HEAD")
+                continue
+            sh("git -C /repo reset -q")
+            rc2, diff = sh("git -C /repo diff")
+            if not os.path.exists(os.path.join(d, "patch.orig.diff")):
+                shutil.copy(os.path.join(d, "patch.diff"), os.path.join(d, "patch.orig.diff"))
+            open(os.path.join(d, "patch.diff"), "w").write(diff)
+            meta["rebased_onto"] = sh("git -C /repo rev-parse --short HEAD")[1].strip()
+            json.dump(meta, open(os.path.join(d, "meta.json"), "w"), indent=1)
+            print(n, "patch rebased onto", meta["rebased_onto"])
         try:
             for p in plist:
                 if not [f for f in os.listdir(os.path.join(V, "harness")) if f.startswith(p.lower() + "_")]:
